@@ -18,14 +18,14 @@ RULE = ("(role, phase, cut class, stall style) enumerated; phases: before RQ/AC,
         "between command and data set, mid data set (PDU boundary and inside a PDU), request without response, release RQ without RP, "
         "mid RELEASE-RP; cut offsets 0,1,5,6,7,len-1,random; styles silent / partial-then-silent / dribble; distinct = (role, phase, "
         "cut class, style); non-trivial = the stall point was reached (bytes delivered as planned)")
-ASSUMPTIONS = ["all four timeouts 0.5 s; watchdog 8 s after the stall began (>= 10 x the relevant timeout plus margin)",
+ASSUMPTIONS = ["all four timeouts 0.5 s; watchdog 6 s after the stall began (>= 10 x the relevant timeout plus margin)",
                "the peer never closes the TCP connection during the observation window"]
 WORKERS = {"quick": 16, "thorough": 16}
 REQUIRE = {"scenarios": 40, "acceptor_scenarios": 20, "requestor_scenarios": 15, "stall_points_reached": 40}
 VER = "1.2.840.10008.1.1"
 CT = "1.2.840.10008.5.1.4.1.1.2"
 T = 0.5
-WATCHDOG = 8.0
+WATCHDOG = 6.0
 
 
 def setup_worker():
